@@ -107,8 +107,27 @@ def u32 (b : Bytes) (i : Nat) : Nat := Bytes.beNat (b.slice i (i + 4))
 /-- `sys.getrecursionlimit()` -/
 def pyLimit : Nat := 1000
 
+/-- CPython 3.12 also limits the recursion of its C stack (`C_RECURSION_LIMIT`); a constructor call costs 3 units,
+    5 for a class with its own `__init__` (measured: pure IP-in-IP, GRE, ICMP, PPP, PPPoE chains end there) -/
+def cLimit : Nat := 1500
+
+/-- how deep the interpreter is: Python frames and C recursion units -/
+structure Dep where
+  py : Nat
+  c : Nat
+  deriving DecidableEq, Repr
+
+instance : HAdd Dep Nat Dep := ⟨fun d k => ⟨d.py + k, d.c⟩⟩
+
+@[simp] theorem Dep.add_py (d : Dep) (k : Nat) : (d + k).py = d.py + k := rfl
+@[simp] theorem Dep.add_c (d : Dep) (k : Nat) : (d + k).c = d.c := rfl
+
 /-- a Python frame at depth `x` must fit under the recursion limit -/
-def need (x : Nat) : Except DErr Unit := if x > pyLimit then .error .recursion else .ok ()
+def need (x : Dep) : Except DErr Unit := if x.py > pyLimit then .error .recursion else .ok ()
+
+/-- entering a constructor that costs `k` C recursion units -/
+def Dep.enter (d : Dep) (k : Nat) : Except DErr Dep :=
+  if d.c + k > cLimit then .error .recursion else .ok ⟨d.py, d.c + k⟩
 
 /-! ### the classes -/
 
@@ -171,7 +190,7 @@ structure ERes where
   data : EData := .obj
   deriving DecidableEq, Repr
 
-abbrev Rec := Nat → Layer → Bytes → Except DErr ERes
+abbrev Rec := Dep → Layer → Bytes → Except DErr ERes
 
 /-- `try: X(buf) … except (KeyError, dpkt.UnpackError)`: `true` = an instance was made -/
 def guarded (r : Except DErr ERes) : Except DErr Bool :=
@@ -180,7 +199,7 @@ def guarded (r : Except DErr ERes) : Except DErr Bool :=
   | .error e => if e.caught then .ok false else .error e
 
 /-- dispatch through a table inside such a `try` -/
-def tryLayer (rec : Rec) (d : Nat) (l : Option Layer) (buf : Bytes) : Except DErr Bool :=
+def tryLayer (rec : Rec) (d : Dep) (l : Option Layer) (buf : Bytes) : Except DErr Bool :=
   match l with
   | none => .ok false                       -- KeyError
   | some l => guarded (rec d l buf)
@@ -209,7 +228,7 @@ def ip4Payload (buf : Bytes) : Bytes :=
 /-- `ip.offset` -/
 def ip4Offset (buf : Bytes) : Nat := u16 buf 6 % 8192
 
-def ip4Layer (rec : Rec) (d : Nat) (buf : Bytes) : Except DErr ERes := do
+def ip4Layer (rec : Rec) (d : Dep) (buf : Bytes) : Except DErr ERes := do
   need (d + 4)
   if buf.length < 20 then .error .needData
   else if (u8 buf 0 % 16) * 4 < 20 then .error .unpack
@@ -286,7 +305,7 @@ def ip6Body (buf : Bytes) : Bytes :=
 def ip6Chain (buf : Bytes) : Except DErr Chain :=
   extWalk ((ip6Body buf).length + 1) (u8 buf 6) (ip6Body buf) 0 false 0
 
-def ip6Layer (rec : Rec) (d : Nat) (buf : Bytes) : Except DErr ERes := do
+def ip6Layer (rec : Rec) (d : Dep) (buf : Bytes) : Except DErr ERes := do
   need (d + 3)
   if buf.length < 40 then .error .needData
   else
@@ -304,7 +323,7 @@ def ip6Layer (rec : Rec) (d : Nat) (buf : Bytes) : Except DErr ERes := do
 
 /-! ### the other nested classes (exception behaviour only) -/
 
-def llcLayer (rec : Rec) (d : Nat) (buf : Bytes) : Except DErr ERes := do
+def llcLayer (rec : Rec) (d : Dep) (buf : Bytes) : Except DErr ERes := do
   need (d + 3)
   if buf.length < 3 then .error .needData
   else
@@ -329,7 +348,7 @@ def sreWalk : Nat → Bytes → Except DErr Bytes
       let rest := data.drop (4 + min len (data.length - 4))
       if len = 0 then .ok rest else sreWalk fuel rest
 
-def greLayer (rec : Rec) (d : Nat) (buf : Bytes) : Except DErr ERes := do
+def greLayer (rec : Rec) (d : Dep) (buf : Bytes) : Except DErr ERes := do
   need (d + 4)
   if buf.length < 4 then .error .needData
   else
@@ -345,7 +364,7 @@ def greLayer (rec : Rec) (d : Nat) (buf : Bytes) : Except DErr ERes := do
       let _ ← tryLayer rec (d + 2) (typesw (u16 buf 2)) data
       pure {}
 
-def ahLayer (rec : Rec) (d : Nat) (buf : Bytes) : Except DErr ERes := do
+def ahLayer (rec : Rec) (d : Dep) (buf : Bytes) : Except DErr ERes := do
   need (d + 3)
   if buf.length < 12 then .error .needData
   else
@@ -353,12 +372,13 @@ def ahLayer (rec : Rec) (d : Nat) (buf : Bytes) : Except DErr ERes := do
     pure {}
 
 /-- `ICMP.Quote` and subclasses / `ICMP6.Error` and subclasses: 4 bytes, then a whole IP / IP6 packet (not in a `try`) -/
-def quoteLayer (rec : Rec) (d : Nat) (inner : Layer) (buf : Bytes) : Except DErr ERes := do
+def quoteLayer (rec : Rec) (d : Dep) (inner : Layer) (buf : Bytes) : Except DErr ERes := do
+  let d ← d.enter 3
   need (d + 3)
   if buf.length < 4 then .error .needData
   else do let _ ← rec (d + 2) inner (buf.drop 4); pure {}
 
-def icmpLayer (rec : Rec) (d : Nat) (buf : Bytes) : Except DErr ERes := do
+def icmpLayer (rec : Rec) (d : Dep) (buf : Bytes) : Except DErr ERes := do
   need (d + 3)
   if buf.length < 4 then .error .needData
   else
@@ -368,7 +388,7 @@ def icmpLayer (rec : Rec) (d : Nat) (buf : Bytes) : Except DErr ERes := do
     else if t = 0 ∨ t = 8 then do need (d + 4); pure {}
     else pure {}
 
-def icmp6Layer (rec : Rec) (d : Nat) (buf : Bytes) : Except DErr ERes := do
+def icmp6Layer (rec : Rec) (d : Dep) (buf : Bytes) : Except DErr ERes := do
   need (d + 3)
   if buf.length < 4 then .error .needData
   else
@@ -381,7 +401,7 @@ def icmp6Layer (rec : Rec) (d : Nat) (buf : Bytes) : Except DErr ERes := do
 /-- `PPP._protosw` -/
 def pppsw (p : Nat) : Option Layer := if p = 0x21 then some .ip4 else if p = 0x57 then some .ip6 else none
 
-def pppLayer (rec : Rec) (d : Nat) (buf : Bytes) : Except DErr ERes := do
+def pppLayer (rec : Rec) (d : Dep) (buf : Bytes) : Except DErr ERes := do
   need (d + 3)
   if buf.length < 3 then .error .needData
   else if u8 buf 2 % 2 = 0 then
@@ -390,7 +410,8 @@ def pppLayer (rec : Rec) (d : Nat) (buf : Bytes) : Except DErr ERes := do
   else do let _ ← tryLayer rec (d + 2) (pppsw (u8 buf 2)) (buf.drop 3); pure {}
 
 /-- `pppoe.PPP(buf)` (one-byte header) -/
-def pppoePpp (rec : Rec) (d : Nat) (buf : Bytes) : Except DErr ERes := do
+def pppoePpp (rec : Rec) (d : Dep) (buf : Bytes) : Except DErr ERes := do
+  let d ← d.enter 3
   need (d + 3)
   if buf.length < 1 then .error .needData
   else if u8 buf 0 % 2 = 0 then
@@ -398,7 +419,7 @@ def pppoePpp (rec : Rec) (d : Nat) (buf : Bytes) : Except DErr ERes := do
     else do let _ ← tryLayer rec (d + 2) (pppsw (u16 buf 0)) (buf.drop 2); pure {}
   else do let _ ← tryLayer rec (d + 2) (pppsw (u8 buf 0)) (buf.drop 1); pure {}
 
-def pppoeLayer (rec : Rec) (d : Nat) (buf : Bytes) : Except DErr ERes := do
+def pppoeLayer (rec : Rec) (d : Dep) (buf : Bytes) : Except DErr ERes := do
   need (d + 3)
   if buf.length < 6 then .error .needData
   else if u8 buf 1 = 0 then do let _ ← guarded (pppoePpp rec (d + 2) (buf.drop 6)); pure {}
@@ -422,7 +443,7 @@ def cdpWalk : Nat → Bytes → Except DErr Unit
         if len = 0 then (if buf.length > 65535 then .error .pack else .ok ())
         else cdpWalk fuel (buf.drop (h + (pyTake (buf.drop h) ((len : Int) - h)).length))
 
-def cdpLayer (d : Nat) (buf : Bytes) : Except DErr ERes := do
+def cdpLayer (d : Dep) (buf : Bytes) : Except DErr ERes := do
   need (d + 3)
   if buf.length < 4 then .error .needData
   else
@@ -460,7 +481,7 @@ def mplsGuess (nt : Nat) (buf : Bytes) : Except DErr (Nat × Bytes) :=
     else .ok (nt, buf)
 
 /-- `Ethernet._unpack_data(buf)` running in a frame at depth `d`; `ty` is `self.type`. -/
-def unpackData (rec : Rec) (d : Nat) (nt : Option Nat) (ty : Nat) (buf : Bytes) :
+def unpackData (rec : Rec) (d : Dep) (nt : Option Nat) (ty : Nat) (buf : Bytes) :
     Except DErr (Option Nat × EData) := do
   let (nt, buf) ←
     (match nt with
@@ -490,7 +511,7 @@ def unpackData (rec : Rec) (d : Nat) (nt : Option Nat) (ty : Nat) (buf : Bytes) 
 
 /-- `Ethernet.unpack(buf)` running in a frame at depth `u`. `top`: `buf` is the constructor's argument (a short
     header is then NeedData; after an ISL header it is 'invalid Ethernet', an UnpackError). -/
-def ethUnpack (rec : Rec) (u : Nat) (top : Bool) (buf : Bytes) : Except DErr ERes := do
+def ethUnpack (rec : Rec) (u : Dep) (top : Bool) (buf : Bytes) : Except DErr ERes := do
   need (u + 1)
   if buf.length < 14 then .error (if top then .needData else .unpack)
   else
@@ -516,7 +537,7 @@ def ethUnpack (rec : Rec) (u : Nat) (top : Bool) (buf : Bytes) : Except DErr ERe
       pure ⟨dst, src, ty, none, .obj⟩
 
 /-- `if self.data: if isinstance(self.data, bytes): self._unpack_data(self.data)` in `Ethernet.__init__` (frame depth `d`) -/
-def secondPass (rec : Rec) (d : Nat) (r : ERes) : Except DErr ERes :=
+def secondPass (rec : Rec) (d : Dep) (r : ERes) : Except DErr ERes :=
   match r.data with
   | .raw b =>
     if b.isEmpty then .ok r
@@ -525,13 +546,13 @@ def secondPass (rec : Rec) (d : Nat) (r : ERes) : Except DErr ERes :=
       pure { r with nt := nt, data := dt }
   | _ => .ok r
 
-def ethLayer (rec : Rec) (d : Nat) (buf : Bytes) : Except DErr ERes := do
+def ethLayer (rec : Rec) (d : Dep) (buf : Bytes) : Except DErr ERes := do
   let r ← ethUnpack rec (d + 3) true buf
   secondPass rec (d + 1) r
 
 /-! ### tying the knot -/
 
-def body (rec : Rec) (d : Nat) (l : Layer) (buf : Bytes) : Except DErr ERes :=
+def body (rec : Rec) (d : Dep) (l : Layer) (buf : Bytes) : Except DErr ERes :=
   match l with
   | .eth => ethLayer rec d buf
   | .ethInner => ethUnpack rec (d + 1) false buf
@@ -549,10 +570,19 @@ def body (rec : Rec) (d : Nat) (l : Layer) (buf : Bytes) : Except DErr ERes :=
   | .cdp => cdpLayer d buf
   | .flat k hdr => do need (d + k); if buf.length < hdr then .error .needData else pure {}
 
+/-- C recursion units of a constructor call (`ethInner` is a plain method call) -/
+def Layer.cUnits : Layer → Nat
+  | .eth | .ip4 => 5
+  | .ethInner => 0
+  | _ => 3
+
 /-- every nested call gets a strictly shorter buffer, so fuel `buf.length + 2` is never exhausted -/
 def parse : Nat → Rec
   | 0, _, _, _ => .error .recursion
-  | fuel + 1, d, l, buf => body (parse fuel) d l buf
+  | fuel + 1, d, l, buf =>
+    match d.enter l.cUnits with
+    | .error e => .error e
+    | .ok d => body (parse fuel) d l buf
 
 /-! ### what `Packet.__init__` reads -/
 
@@ -581,7 +611,7 @@ def ip6View (dstMac srcMac buf : Bytes) : IpPkt :=
     ⟨true, srcMac, dstMac, src, dst, p, ch.rest, l4⟩
 
 /-- `Packet(buf, ts)` called from a Python frame at depth `base`: `Ethernet(self.binary)` runs in `Packet.__init__`. -/
-def dissectD (base : Nat) (buf : Bytes) : Except DErr Dissected :=
+def dissectD (base : Dep) (buf : Bytes) : Except DErr Dissected :=
   match parse (buf.length + 2) (base + 1) .eth buf with
   | .error e => .error e
   | .ok r =>
@@ -592,7 +622,7 @@ def dissectD (base : Nat) (buf : Bytes) : Except DErr Dissected :=
 
 /-- depth of the frame of `run()` when the tool is started as `python -m tlexport` / by its console script
     (`<module>` → `main()` → `run()`; runpy adds two more) — the budget only matters for > 200 nested headers -/
-def defaultBase : Nat := 5
+def defaultBase : Dep := ⟨4, 5⟩
 
 def dissect (buf : Bytes) : Except DErr Dissected := dissectD defaultBase buf
 
